@@ -83,10 +83,12 @@ class NumberDuplicateStrategy(DuplicateNamingStrategy):
         # Find the next free index
         next_index = 1
         if indices:
-            # +1 to include the max, +2 so that we get the next one in case all
-            # indices are already taken
-            possible_indices = set(range(min(indices), max(indices) + 2))
-            next_index = min(possible_indices - set(indices))
+            # Lowest free index starting from the smallest one in use (walks
+            # the taken indices only, the span between them can be huge)
+            taken_indices = set(indices)
+            next_index = min(taken_indices)
+            while next_index in taken_indices:
+                next_index += 1
 
         new_filename = f"{filename} ({next_index}){extension}"
         return local_dir, new_filename
